@@ -14,7 +14,8 @@ RULE = (
     "decimals on the smallest unit, PnW, leading '-') must decode to exactly "
     "the spelled components. kind 'alt': P[YYYY]-[MM]-[DD]T[hh]:[mm]:[ss] in "
     "basic/extended, calendar/ordinal spelling with values inside the ISO "
-    "carry-over limits must equal the designator spelling. Non-trivial = >= 2"
+    "carry-over limits must equal the designator spelling. All cases of a "
+    "shard go through one long-lived DurationParser. Non-trivial = >= 2"
     " non-zero units, or a decimal, a negative sign or week form; distinct by "
     "case digest.")
 ASSUMPTIONS = [
@@ -33,9 +34,18 @@ ASSUMPTIONS = [
 UNITS = ("years", "months", "days", "hours", "minutes", "seconds")
 
 
+_PARSER = []
+
+
 def parser():
-    from metomi.isodatetime import parsers
-    return parsers.DurationParser()
+    """One DurationParser per process, as an application would hold it: what
+    it parsed before (a negative duration, another spelling) must not leak
+    into the next parse.  A failure that needs the earlier cases is replayed
+    with its history (runner)."""
+    if not _PARSER:
+        from metomi.isodatetime import parsers
+        _PARSER.append(parsers.DurationParser())
+    return _PARSER[0]
 
 
 def comps(d):
